@@ -570,6 +570,23 @@ def run(ck):
             tk = f.calls(TICK)
             ck.ob("DOM", f.path, "growth-charged", any(f.dominates(tb, bi) for (tb, _) in tk), "growing the return value is preceded by a charge", f.loc(bi))
         cmp_rejecting(ck, f, [("arg", 3)], [("arg", 1), ("call", r"::len$")], "Gt", "offset>len-rejected")
+    # a write never SHRINKS what it writes into: in the three buffer writers the resize to the end position of the write is
+    # conditional (taken when the buffer is shorter than that end) - an unconditional resize truncates the buffer when the
+    # contract goes back and overwrites bytes in the middle
+    nwr = 0
+    for pth in sorted(c.paths()):
+        if not re.search(r"v0::types::State>::write_state$|v1::host::write_return_value_helper$|v1::types::InstanceState::<.*>::entry_write$", pth):
+            continue
+        for b in c.get_all(pth):
+            g = Fn(b)
+            acc, _ = g.accept_points()
+            for (bi, t) in g.calls(r"Vec::<T, A>::resize$"):
+                nwr += 1
+                uncond = [a for a in acc if g.dominates(bi, a)]
+                ck.ob("DOM", pth, "write-grows-but-never-shrinks", not uncond,
+                      "the resize is taken only on the path where the buffer is shorter than the end of the write" if not uncond else
+                      "the buffer is resized to the end of the write on every path: a write that ends before the current end truncates it", g.loc(bi))
+    ck.floor("DOM", "buffer writers with a conditional resize", nwr, 3)
     # v0 send action: the parameter size limit is inclusive and tested before the parameter is copied
     for pth in [x for x in c.paths() if re.search(r"::v0::.*Outcome::send$", x)]:
         f = Fn(c.get(pth))
